@@ -93,6 +93,19 @@ def coords2 : IO Unit := do
         IO.println s!"lineCoordinates {ratS a} {ratS b} {n} none spacing {px} | {lc (Gen.lineCoordinates a b (some (n : Int)) none "spacing" px)} | {lc (lineCoordinates a b (some n) none .spacing px)}"
     IO.println s!"lineCoordinates {ratS a} {ratS b} none none spacing false | {lc (Gen.lineCoordinates a b none none "spacing" false)} | {lc (lineCoordinates a b none none .spacing false)}"
     IO.println s!"lineCoordinates {ratS a} {ratS b} 3 1 spacing false | {lc (Gen.lineCoordinates a b (some 3) (some 1) "spacing" false)} | {lc (lineCoordinates a b (some 3) (some 1) .spacing false)}"
+  let gl := fun (x : Except Err (List Rat × List Rat)) => match x with
+    | .ok (a, b) => s!"{lc (.ok a)} {lc (.ok b)}" | .error .valueError => "err" | .error _ => "err2"
+  let spS := fun (o : Option (List Rat)) => match o with | none => "none" | some l => (if l.isEmpty then "-" else ",".intercalate (l.map ratS))
+  let shS := fun (o : Option (Nat × Nat)) => match o with | none => "none" | some (a, b) => s!"{a}x{b}"
+  for (w, e, s, n) in [((0 : Rat), (10 : Rat), (-5 : Rat), (1 : Rat)), (-1/2, 21/2, 2, 2), (1, 0, 0, 1), (0, 1, 1, 0), (1/10, 7/10, -3, 4)] do
+    for px in [false, true] do
+      for adj in ["spacing", "region", "nearest"] do
+        for (sh, sp) in [((none : Option (Nat × Nat)), (some [1] : Option (List Rat))), (none, some [5/2, 1/3]), (none, some [1/3, 5/2]), (none, some [20, 1]),
+            (none, some []), (none, some [1, 2, 3]), (none, none), (some (3, 5), none), (some (5, 3), none), (some (2, 2), some [1]), (some (1, 4), none),
+            (some (0, 3), none), (some (38, 2), none)] do
+          let m := gridLines [w, e, s, n] ⟨sh, sp, (if adj = "spacing" then .spacing else if adj = "region" then .region else .bad), px⟩
+          let g := Gen.gridLines w e s n (sh.map fun p => ((p.1 : Int), (p.2 : Int))) sp adj px
+          IO.println s!"gridLines {ratS w} {ratS e} {ratS s} {ratS n} {shS sh} {spS sp} {adj} {px} | {gl g} | {gl m}"
   for (nn, ne) in [((2 : Nat), (2 : Nat)), (3, 5), (7, 2), (14, 11), (2, 9)] do
     for px in [false, true] do
       for r in [(⟨0, 10, -5, 1⟩ : Region), ⟨-1/2, 21/2, -11/2, 3/2⟩, ⟨3, 3, 1, 4⟩] do
